@@ -55,6 +55,19 @@ CLAIMED = {
         note='Trusted: Coq kernel + vm_compute, Spec/Finder.v + Table7.v, extraction, harness, hooks verif_entries/verif_from_entries. '
              'The two-stage form of the model (layout/actions + interpreter) relies on the Rust functions being parametric in the bit type. No axioms.',
         technique='Coq proof: per-size symbolic evaluation (kernel sweep) + generic interpreter lemmas valid for all bit vectors; exhaustive/differential correspondence'),
+    'C15': dict(
+        text='Theorems (Coq, axiom-free): C15_designator (for every ECI number 0..999999 write_eci emits 241 followed by the '
+             'designator of ISO/IEC 16022 Table 6 and read_eci reads it back as the same number, whatever follows -- arithmetic '
+             'proof for all numbers, not a sweep), C15_reject (read_eci accepts exactly the well-formed designators and returns an '
+             'error otherwise, never a panic), C15_charsets (for ECI 0/3, 11, 13, 26, 27 and every byte string the chunk conversion '
+             'equals the character set defined by formula in Spec/Eci.v; control/undefined bytes give CharsetError; 256-byte kernel '
+             'sweep over the regenerated tables lifted by induction), C15_utf8 (soundness and completeness of UTF-8 validation), '
+             'C15_other_eci. Tie: tables regenerated by the translator; read_eci/write_eci through hooks; decode_str on '
+             '[241, designator, payload] for all 256 bytes x 15 ECI numbers exhaustively; from_utf8 compared with core::str.',
+        design_ref='DESIGN.md 6/C15',
+        note='Trusted: Coq kernel, translator (ISO tables, latin1 match arms), extraction, harness, hooks verif::read_eci/write_eci; '
+             'Spec/Eci.v formulas; Rust String modelled as scalar list. Three genuine defects were repaired by fix: commits (known_findings.json). No axioms.',
+        technique='Coq proof: linear arithmetic with div/mod for all ECI numbers; kernel sweep over 256 bytes lifted by induction; UTF-8 codec proved sound and complete; exhaustive correspondence'),
 }
 
 PENDING_REASON = 'check not built yet in this round (work proceeds in the order of DESIGN.md section 11); not claimed until its quick command exists'
